@@ -408,8 +408,9 @@ class RecRun:
         except Exception as e:      # noqa
             # an injected NaN may surface as a RuntimeError from a linear solver inside the optimizer;
             # anything else is not expected from a valid call
-            if len(self.rt.fired) == before:
-                raise
+            if len(self.rt.fired) == before and not (any(f['kind'] == 'nan' for f in self.rt.fired)
+                                                      and 'NaN' in str(e)):
+                raise       # (a NaN injected by an earlier op may still sit in a sub-jacobian)
             err = e
         disk.mark(f"opdone:{kind}")
         if kind != 'fault':
